@@ -46,7 +46,8 @@ CHECKS = {
              'thread start: one script operation per loop iteration; it can deliver every segmentation and arrival order but not '
              'preemption inside an iteration (there is one provider thread per association). Reset-while-sending (EPIPE) is not in the alphabet.'),
     'C04': dict(
-        text=('Proof over the complete behaviour of the code: the real StateMachine is exercised on all 13 states x 19 '
+        text=('Theorems C04_every_cell, C04_table_size, C04_model_conforms (the control model used by C05/C12/C13 conforms to the '
+              'table in all 3900 cells, statically). Proof over the complete behaviour of the code: the real StateMachine is exercised on all 13 states x 19 '
               'events x both roles x every applicable primitive kind (702 cells) with a recording transport, queue and '
               'ARTIM timer; Coq checks every observed cell against the independently transcribed PS3.8 Table 9-10 / '
               'Tables 9-6..9-9 (wire PDU, indication, close/open, ARTIM effect, next state; undefined cells: no effect) '
